@@ -21,6 +21,19 @@ Search oracle (S), no reference to the model: every sketched axis has an integer
 per layer with one slot per axis id.  An exception (including the function's own AssertionError) for
 base rank >= 1, dims >= 1 and finite non-negative scores means no rank was assigned: violation.
 Base rank < 1 is rejected by the function's first assert (compared with the model, not an oracle matter).
+
+Extension stream "tree" (x64): the WHOLE function is modelled (`Model/ReallocState.lean`, ops `pipe_f64` / `pipe_rat`):
+generated nested state trees (layers at depth 1..4, 1..3 axes, several layers sharing a dim, `dim` field on some axes,
+unsketched parameters as empty dicts / `{"axes": {}}` / dicts of non-dict values, list and None leaves, 1..3 states
+with and without running average, all five rules) go through the real `layers_and_axes`, `create_groups`,
+`score_fn`, `create_redist_dict` and through the model; compared EXACT: layer-name set, `num_axes`, groups, dims,
+score bit patterns (statistics are small integers times powers of two so every reduction XLA orders is exact; the
+quotients and the mean's scaling are single IEEE operations the `Float` model repeats; `jnp.linalg.norm(., 2)` is an
+external kernel whose observed value is an input of the model; how `jnp.mean` rounds is measured on the platform —
+`mean_calibration`), and the returned nested dict.  Malformed trees (non-dict value at the top, layer directly under
+the root, non-digit axis key, axis-id gap, missing statistic) must be rejected by both.  Direct oracle of the
+stream: every sketched axis has an integer rank in 1..dim at slot `id` of the list stored at its layer path, no
+other path holds an entry, unused slots are 0, and per group sum(d * rank) <= size * d * min(d, base rank).
 """
 import json
 import os
@@ -530,6 +543,449 @@ def execute(ctx, cases, stats):
     return pairs
 
 
+# ============================================================================= extension: whole pipeline on state trees
+# (traversal + scoring + allocation + returned dict; `Model/ReallocState.lean`, ops pipe_f64 / pipe_rat)
+#
+# A case is a list of "spec trees" (one per state): dict = dict, leaf = ["s", x] | ["v", [x..]] | ["m", [[x..]..]] |
+# ["shape", [d, r]] | ["i", n] | ["o", kind].  All numbers are small integers times a power of two chosen so that
+# every sum the scoring forms (jnp.sum, jnp.trace, the sum inside jnp.mean for the trace/tail rules) is exact in
+# float64 in ANY order (policy EXACT-DYADIC for the reductions whose order XLA owns); quotients and the mean's
+# scaling are single IEEE operations the Float model repeats.
+
+def _dy(rng, hi, e):
+    return float(rng.randint(0, hi)) * 2.0 ** e
+
+
+def _tree_axis_leafs(rng, d, r, rule, e0, zero, tie, with_ggt, dim_field):
+    """One `_AxisState` as a spec dict."""
+    ax = {"eigvecs": ["shape", [d, r]], "inv_eigvals": ["o", "arr"], "inv_tail": ["o", "arr"]}
+    if zero:
+        ev = [0.0] * r
+        tail = 0.0
+    elif tie is not None:
+        ev = [tie] + [0.0] * (r - 1)
+        tail = tie
+    else:
+        ev = [_dy(rng, 1000, e0 + rng.randint(0, 6)) for _ in range(r)]
+        tail = _dy(rng, 1 << 20, e0)
+    ax["eigvals"] = ["v", ev]
+    ax["tail"] = ["s", tail]
+    if with_ggt:
+        g = [[float(rng.randint(-3, 3)) * 2.0 ** e0 for _ in range(d)] for _ in range(d)]
+        for i in range(d):
+            for j in range(i):
+                g[i][j] = g[j][i]
+            g[i][i] = 0.0 if zero and rule != "ggt_intrinsic_rank" else _dy(rng, 500, e0)
+        if rule == "ggt_intrinsic_rank" and all(g[i][i] == 0.0 for i in range(d)):
+            g[0][0] = 2.0 ** e0          # an all-zero ema_ggt gives 0/0 = NaN: outside the hypothesis (see notes)
+        if tie is not None:
+            g = [[(tie if i == j == 0 else 0.0) for j in range(d)] for i in range(d)]
+        ax["ema_ggt"] = ["m", g]
+    else:
+        ax["ema_ggt"] = ["o", "masked"]   # optax.MaskedNode() when add_ggt is off
+    if dim_field:
+        ax["dim"] = ["i", d]
+    return ax
+
+
+def gen_tree_case(rng, cid, malformed=None):
+    rule = rng.choice(RULES)
+    nlayers = rng.randint(1, 7)
+    pool = rng.sample([2, 3, 4, 5, 7, 8, 12], rng.randint(1, 3))
+    if rule.startswith("ggt"):
+        pool = [d for d in pool if d <= 8] or [3]
+    rank = rng.choice([1, 2, 2, 3, 4, 5, 8, 16]) if rng.random() < 0.95 else 0
+    avg = rng.random() < 0.4
+    nstates = rng.choice([1, 2, 3]) if (avg or rng.random() < 0.3) else 1
+    e0 = rng.randint(-20, 20)
+    profile = rng.choice(["generic", "generic", "zero_mix", "tied", "all_zero"])
+    used = []
+    layers = []
+    tie = _dy(rng, 50, e0) + 2.0 ** e0
+    for _ in range(nlayers):
+        while True:
+            depth = rng.choice([1, 1, 2, 3, 4])
+            path = [rng.choice(["enc", "dec", "blk", "mlp", "attn", "pp"]) + str(rng.randint(0, 30)) for _ in range(depth - 1)]
+            path.append(rng.choice(["ww", "kernel", "emb", "ll"]) + str(rng.randint(0, 99)))
+            if not any(u[:len(path)] == path or path[:len(u)] == u for u in used):
+                used.append(path)
+                break
+        naxes = rng.randint(1, 3)
+        axes = []
+        for a in range(naxes):
+            d = rng.choice(pool)
+            axes.append({"id": a, "dim": d, "r": max(1, min(d, max(rank, 1))), "dim_field": rng.random() < 0.25,
+                         "cls": [("zero" if (profile == "all_zero" or (profile == "zero_mix" and rng.random() < 0.5)) else
+                                  "tie" if (profile == "tied" and rng.random() < 0.6) else "gen") for _ in range(nstates)]})
+        layers.append({"path": path, "axes": axes})
+    # unsketched parameters and stray non-dict values (must not receive an entry)
+    unsk = []
+    for _ in range(rng.randint(0, 3)):
+        while True:
+            path = [rng.choice(["enc", "dec", "norm", "bias"]) + str(rng.randint(0, 30)) for _ in range(rng.randint(1, 3))]
+            if not any(u[:len(path)] == path or path[:len(u)] == u for u in used):
+                used.append(path)
+                break
+        unsk.append({"path": path, "kind": rng.choice(["empty_axes", "empty", "masked_leaf", "list_leaf"])})
+    states = []
+    for si in range(nstates):
+        sk = {}
+        for L in layers:
+            cur = sk
+            for p in L["path"]:
+                cur = cur.setdefault(p, {})
+            axd = cur.setdefault("axes", {})
+            for A in L["axes"]:
+                cls = A["cls"][si]
+                axd[str(A["id"])] = _tree_axis_leafs(rng, A["dim"], A["r"], rule, e0, cls == "zero",
+                                                     tie if cls == "tie" else None,
+                                                     rule.startswith("ggt") or rng.random() < 0.3, A["dim_field"])
+        for U in unsk:
+            cur = sk
+            for p in U["path"][:-1]:
+                cur = cur.setdefault(p, {})
+            last = U["path"][-1]
+            if U["kind"] == "empty_axes":
+                cur[last] = {"axes": {}}
+            elif U["kind"] == "empty":
+                cur[last] = {}
+            elif U["kind"] == "masked_leaf":       # a non-dict value under a key of >= 2 characters inside a dict of >= 2-character name
+                cur[last] = {"state": ["o", "none"], "count": ["i", 3]}
+            else:
+                cur[last] = {"history": ["o", "list"]}
+        if malformed == "top_leaf":
+            sk["count"] = ["i", 1]                  # parent_key '' -> name[-2] IndexError
+        elif malformed == "toplevel_axes" and layers:
+            sk["axes"] = {"0": _tree_axis_leafs(rng, 3, 1, rule, e0, False, None, True, False)}   # dirs empty -> IndexError
+        elif malformed == "nondigit_axis" and layers:
+            cur = sk
+            for p in layers[0]["path"]:
+                cur = cur[p]
+            cur["axes"]["x"] = _tree_axis_leafs(rng, 3, 1, rule, e0, False, None, True, False)    # int('x') ValueError
+        elif malformed == "axis_gap" and layers:
+            cur = sk
+            for p in layers[0]["path"]:
+                cur = cur[p]
+            cur["axes"]["7"] = _tree_axis_leafs(rng, 3, 1, rule, e0, False, None, True, False)    # slot 7 of a short row
+        elif malformed == "missing_target" and layers:
+            cur = sk
+            for p in layers[0]["path"]:
+                cur = cur[p]
+            del cur["axes"]["0"][{"tail_rho": "tail", "sketch_trace": "eigvals", "sketch_intrinsic_rank": "eigvals"}.get(rule, "ema_ggt")]
+        states.append({"inner_state": {"0": {"direction": {"1": {"sketches": sk}}}, "count": ["i", 5]}, "extra": ["o", "none"]})
+    return {"id": cid, "kind": "tree", "x64": True, "rule": rule, "avg": avg, "rank": rank, "profile": profile,
+            "malformed": malformed, "layers": layers, "unsketched": unsk, "states": states}
+
+
+def _spec_to_numpy(t):
+    import numpy as np
+    if isinstance(t, dict):
+        return {k: _spec_to_numpy(v) for k, v in t.items()}
+    tag = t[0]
+    if tag == "s":
+        return np.float64(t[1])
+    if tag == "v":
+        return np.array(t[1], np.float64)
+    if tag == "m":
+        return np.array(t[1], np.float64)
+    if tag == "shape":
+        return np.zeros(tuple(t[1]), np.float64)
+    if tag == "i":
+        return int(t[1])
+    return {"list": [1, 2], "none": None, "arr": np.ones(2), "masked": (), "str": "x"}.get(t[1])
+
+
+def _spec_to_model(t, norm_fn, rat):
+    """Spec tree -> driver JSON (floats as bit patterns or exact rationals; kernel value of norm(., 2) attached)."""
+    num = (lambda x: kit.rat_str(Fraction(float(x)))) if rat else (lambda x: kit.f64_hex(float(x)))
+    if isinstance(t, dict):
+        return {k: _spec_to_model(v, norm_fn, rat) for k, v in t.items()}
+    tag = t[0]
+    if tag == "s":
+        return ["s", num(t[1])]
+    if tag == "v":
+        return ["v", [num(x) for x in t[1]]]
+    if tag == "m":
+        return ["m", [[num(x) for x in row] for row in t[1]], num(norm_fn(t[1]))]
+    if tag == "shape":
+        return ["shape", list(t[1])]
+    if tag == "i":
+        return ["i", int(t[1])]
+    return ["o"]
+
+
+def mean_calibration_task(_):
+    """How does the platform round jnp.mean of n float64 values?  ('recip': sum * fl(1/n); 'div': sum / n; sum left to right)"""
+    import numpy as np
+    import jax
+    jax.config.update("jax_enable_x64", True)
+    import jax.numpy as jnp
+    rng = random.Random(171717)
+    cnt = {"n": 0, "recip": 0, "div": 0}
+    for _ in range(400):
+        n = rng.choice([1, 2, 3, 3, 3])
+        v = [np.float64(rng.uniform(0.1, 10) * 2.0 ** rng.randint(-20, 20)) for _ in range(n)]
+        got = float(jnp.mean(jnp.array(v)))
+        s = np.float64(0)
+        for x in v:
+            s = s + x
+        cnt["n"] += 1
+        cnt["recip"] += got == float(s * (np.float64(1) / np.float64(n)))
+        cnt["div"] += got == float(s / np.float64(n))
+    return cnt
+
+
+def run_impl_tree(task):
+    import numpy as np
+    import jax
+    jax.config.update("jax_enable_x64", True)
+    import jax.numpy as jnp
+    from precondition.tearfree import reallocation as R
+    out = []
+    norms = {}
+
+    def norm_fn(rows):
+        key = json.dumps(rows)
+        if key not in norms:
+            norms[key] = float(jnp.linalg.norm(np.array(rows, np.float64), 2))
+        return norms[key]
+    for case in task["cases"]:
+        obs = {"hashseed": os.environ.get("PYTHONHASHSEED")}
+        try:
+            states = tuple(_spec_to_numpy(s) for s in case["states"])
+            try:
+                sketches = states[-1]["inner_state"]["0"]["direction"]["1"]["sketches"]
+                names, num_axes = R.layers_and_axes(sketches)
+                obs["order"] = [n.split("/") for n in names]
+                obs["num_axes"] = int(num_axes)
+                groups = R.create_groups(sketches, names)
+                obs["groups"] = [[int(d), sorted(g)] for d, g in groups.items()]
+                sd = R.score_fn(states, case["rule"], names, case["avg"])
+                obs["score_order_ok"] = list(sd) == list(names)
+                obs["score_dtype"] = sorted({str(np.asarray(v).dtype) for v in sd.values()})
+                obs["scores"] = {n: kit.f64_hex(float(np.asarray(sd[n]))) for n in names}
+            except Exception as e:  # noqa: BLE001
+                obs["helper_exception"] = type(e).__name__ + ": " + str(e)[:200]
+            try:
+                res = R.create_redist_dict("", [], case["rule"], case["avg"], case["rank"], states=states)
+                obs["result"] = json.loads(json.dumps(res, default=lambda o: {"__nonint__": repr(o)}))
+                obs["types_ok"] = _all_int(res)
+            except AssertionError as e:
+                a = e.args[0] if e.args else None
+                obs["assertion"] = [(_plain(x)) for x in a] if isinstance(a, tuple) else repr(a)
+            except Exception as e:  # noqa: BLE001
+                obs["exception"] = type(e).__name__ + ": " + str(e)[:200]
+            obs["model_states_f"] = [_spec_to_model(s, norm_fn, False) for s in case["states"]]
+            obs["model_states_q"] = [_spec_to_model(s, norm_fn, True) for s in case["states"]]
+        except Exception as e:  # noqa: BLE001
+            obs["harness_exception"] = type(e).__name__ + ": " + str(e)[:300]
+        out.append(obs)
+    jax.clear_caches()
+    return out
+
+
+def _leaf_rows(res, prefix=()):
+    """All (path, list) leaves of the returned nested dict; anything else is reported as a stray value."""
+    out, stray = {}, []
+    if isinstance(res, dict):
+        for k, v in res.items():
+            o, s = _leaf_rows(v, prefix + (k,))
+            out.update(o)
+            stray += s
+    elif isinstance(res, list):
+        out[prefix] = res
+    else:
+        stray.append(prefix)
+    return out, stray
+
+
+def evaluate_tree(ctx, case, obs, rep_f, rep_q, stats, recip):
+    import math
+    if "harness_exception" in obs:
+        raise kit.InfraError(f"case {case['id']}: {obs['harness_exception']}")
+    k = case["rank"]
+    want_axes = {}
+    for L in case["layers"]:
+        for A in L["axes"]:
+            want_axes[tuple(L["path"]) + ("axes", str(A["id"]))] = (tuple(L["path"]), A["id"], A["dim"])
+    impl_ok = "result" in obs
+    model_ok = "dict" in rep_f
+    if case["malformed"]:
+        # outside the property's domain: the model must flag exactly the inputs on which the code raises
+        agree = (not impl_ok) and (not model_ok) and "err" in rep_f
+        ctx.corr("pipe_f64 malformed-tree classification", agree)
+        stats["tree:malformed:" + case["malformed"] + ":" + str(rep_f.get("err"))] += 1
+        if not agree:
+            ctx.disagree("pipe_f64 malformed-tree classification", _slim(case), obs.get("result", obs.get("exception", obs.get("assertion"))),
+                         _slim_rep(rep_f), "model and implementation disagree on whether this malformed tree is rejected")
+        return
+    # ---- traversal: names, num_axes, groups (EXACT)
+    jn = lambda p: "/".join(p)  # noqa: E731
+    if "helper_exception" in obs:
+        ctx.corr("pipe_f64 traversal", False)
+        ctx.disagree("pipe_f64 traversal", _slim(case), obs["helper_exception"], _slim_rep(rep_f), "helper raised on a well-formed tree")
+        ctx.violation(f"well-formed state tree rejected: {obs['helper_exception']}", {"case": _slim(case)})
+        return
+    names_ok = "axes" in rep_f or rep_f.get("err") in ("baseRank", "rankExceedsDim", "overBudget")
+    if "axes" in rep_f:
+        m_groups = [[d, sorted(jn(p) for p, _r in prs)] for d, prs in rep_f["ranks"]]
+        trav = (rep_f["num_axes"] == obs["num_axes"] and m_groups == obs["groups"]
+                and [a[0] for a in rep_f["axes"]] == obs["order"] and [a[1] for a in rep_f["axes"]] == [want_axes[tuple(p)][2] for p in obs["order"]])
+        ctx.corr("pipe_f64 traversal (names, num_axes, groups, dims)", trav)
+        if not trav:
+            ctx.disagree("pipe_f64 traversal (names, num_axes, groups, dims)", _slim(case),
+                         {"order": obs["order"], "num_axes": obs["num_axes"], "groups": obs["groups"]},
+                         {"num_axes": rep_f["num_axes"], "groups": m_groups, "axes": rep_f["axes"]})
+        # ---- scores (EXACT bit patterns)
+        m_scores = {jn(a[0]): a[2].lower().replace("0x", "") for a in rep_f["axes"]}
+        i_scores = {n: h.lower().replace("0x", "") for n, h in obs["scores"].items()}
+        sc = m_scores == i_scores and obs["score_dtype"] == ["float64"] and obs["score_order_ok"]
+        ctx.corr("pipe_f64 score_fn (bit patterns)", sc)
+        if not sc:
+            ctx.disagree("pipe_f64 score_fn (bit patterns)", _slim(case), {"scores": obs["scores"], "dtype": obs["score_dtype"]}, m_scores,
+                         f"rule {case['rule']} avg {case['avg']} mean mode {'recip' if recip else 'div'}")
+        stats["tree:scores:" + case["rule"] + (":avg%d" % len(case["states"]) if case["avg"] else "")] += 1
+    elif not names_ok:
+        ctx.corr("pipe_f64 traversal (names, num_axes, groups, dims)", False)
+        ctx.disagree("pipe_f64 traversal (names, num_axes, groups, dims)", _slim(case), {"order": obs.get("order")}, _slim_rep(rep_f),
+                     "model rejects a tree the implementation traverses")
+    # ---- returned dictionary (EXACT) / assertion
+    if impl_ok:
+        agree = model_ok and rep_f["dict"] == obs["result"]
+    elif "assertion" in obs:
+        a = obs["assertion"]
+        agree = (rep_f.get("err") in ("baseRank", "overBudget") and isinstance(a, list) and a == rep_f.get("detail")) or \
+                (rep_f.get("err") == "rankExceedsDim" and isinstance(a, list) and a[1:] == rep_f.get("detail"))
+    else:
+        agree = False
+    ctx.corr("pipe_f64 returned dict", agree)
+    if not agree:
+        ctx.disagree("pipe_f64 returned dict", _slim(case), obs.get("result", obs.get("assertion", obs.get("exception"))),
+                     rep_f.get("dict", _slim_rep(rep_f)), f"order {obs.get('order')}")
+    scores = {n: kit.hex_f64(h) for n, h in obs.get("scores", {}).items()}
+    hyp = bool(scores) and all(math.isfinite(s) and s >= 0 for s in scores.values())
+    bydim = {}
+    for key, (_p, _a, d) in want_axes.items():
+        bydim.setdefault(d, []).append(key)
+    # ---- executed instance of realloc_pipeline_bounds / redist_dict_total / realloc_memory_le_uniform (Rat run)
+    if hyp and k >= 1:
+        okq = "flat" in rep_q
+        if okq:
+            flat = {tuple(d): row for d, row in rep_q["flat"]}
+            rk = {tuple(p): r for _d, prs in rep_q["ranks"] for p, r in prs}
+            okq = (set(rk) == set(want_axes) and all(1 <= rk[key] <= want_axes[key][2] for key in rk)
+                   and all(sum(rk[key] for key in g) <= len(g) * min(d, k) for d, g in bydim.items())
+                   and set(flat) == {want_axes[key][0] for key in want_axes}
+                   and all(flat[want_axes[key][0]][want_axes[key][1]] == rk[key] for key in rk)
+                   and all(s >= 0 for s in (Fraction(a[2]) for a in rep_q["axes"])))
+        ctx.corr("pipe_rat satisfies realloc_pipeline_bounds / redist_dict_total / realloc_memory_le_uniform", okq)
+        if not okq:
+            ctx.disagree("pipe_rat satisfies realloc_pipeline_bounds / redist_dict_total / realloc_memory_le_uniform", _slim(case), None,
+                         _slim_rep(rep_q), "executed instance contradicts the theorems")
+    # ---- direct oracle on the implementation (no reference to the model)
+    ctx.cov["search_evaluations"] += 1
+    if k >= 1 and hyp:
+        bad = []
+        if impl_ok:
+            rows, stray = _leaf_rows(obs["result"])
+            dirs = {want_axes[key][0] for key in want_axes}
+            if stray:
+                bad.append(f"non-list values at {stray[:3]}")
+            extra = set(rows) - dirs
+            if extra:
+                bad.append(f"entries for paths that hold no sketched axis: {sorted(extra)[:3]}")
+            for key, (p, a, d) in want_axes.items():
+                row = rows.get(p)
+                if row is None or a >= len(row):
+                    bad.append(f"axis {jn(key)}: no rank entry at its path")
+                elif type(row[a]) is not int or not (1 <= row[a] <= d):
+                    bad.append(f"axis {jn(key)} (dim {d}) rank {row[a]}")
+            if not bad:
+                for p, row in rows.items():
+                    ids = {a for (pp, a, _d) in want_axes.values() if pp == p}
+                    if any(row[i] != 0 for i in range(len(row)) if i not in ids):
+                        bad.append(f"layer {jn(p)}: non-zero value in a slot without axis: {row}")
+                for d, g in bydim.items():
+                    mem = sum(d * rows[want_axes[key][0]][want_axes[key][1]] for key in g)
+                    uni = sum(d * min(d, k) for _ in g)
+                    if mem > uni:
+                        bad.append(f"group dim {d}: sketch memory {mem} > uniform allocation {uni} (base rank {k})")
+                    if sum(rows[want_axes[key][0]][want_axes[key][1]] for key in g) > len(g) * k:
+                        bad.append(f"group dim {d}: ranks exceed {len(g)} x {k}")
+            stats["tree:outcome:ok"] += 1
+        else:
+            bad.append("no ranks assigned: " + str(obs.get("assertion", obs.get("exception"))))
+            stats["tree:outcome:raised"] += 1
+        if bad:
+            stats["violations:tree"] += 1
+            ctx.violation("; ".join(bad[:4]), {"case": _slim(case), "scores": obs.get("scores"), "order": obs.get("order"),
+                                               "impl": obs.get("result", obs.get("assertion", obs.get("exception")))})
+    elif not hyp:
+        stats["tree:hypothesis_not_met"] += 1
+
+
+def _slim(case):
+    return case
+
+
+def _slim_rep(rep):
+    return {k: v for k, v in rep.items() if k in ("err", "detail", "key", "num_axes", "error")} if isinstance(rep, dict) else rep
+
+
+def execute_tree(ctx, cases, stats, recip):
+    if not cases:
+        return []
+    tasks = [{"cases": ch} for ch in kit.chunked(cases, max(1, min(60, len(cases) // 12 + 1)))]
+    old = os.environ.get("PYTHONHASHSEED")
+    os.environ["PYTHONHASHSEED"] = HASHSEED
+    try:
+        results = kit.parallel_map(run_impl_tree, tasks, nproc=14)
+    finally:
+        if old is None:
+            os.environ.pop("PYTHONHASHSEED", None)
+        else:
+            os.environ["PYTHONHASHSEED"] = old
+    pairs = [(c, o) for t, r in zip(tasks, results) for c, o in zip(t["cases"], r)]
+    reqs = []
+    for c, o in pairs:
+        order = o.get("order")
+        if order is None:      # the helper raised: let the model traverse in its own order (it must then fail as well)
+            order = []
+        base = {"rule": c["rule"], "avg": c["avg"], "recip": recip, "rank": c["rank"], "order": order}
+        reqs.append(dict(base, op="pipe_f64", states=o.get("model_states_f", [])))
+        reqs.append(dict(base, op="pipe_rat", states=o.get("model_states_q", [])))
+    replies = ctx.driver(reqs)
+    for i, (c, o) in enumerate(pairs):
+        ctx.evaluated()
+        ctx.dist("tree:" + c["rule"] + (":avg" if c["avg"] else ""))
+        ctx.dist("tree-profile:" + (c["malformed"] or c["profile"]))
+        evaluate_tree(ctx, c, o, replies[2 * i], replies[2 * i + 1], stats, recip)
+        if not c["malformed"] and c["rank"] >= 2 and "scores" in o and \
+                any(len(g) >= 2 and any(int(o["scores"][n], 16) != 0 for n in g) for _d, g in o.get("groups", [])):
+            ctx.nontrivial(("tree", c["rule"], c["avg"], c["rank"], json.dumps(o["groups"]), tuple(sorted(o["scores"].items()))))
+    return pairs
+
+
+def tree_stage(ctx, rng, stats):
+    cal = kit.parallel_map(mean_calibration_task, [0], nproc=1)[0]
+    ctx.cov["mean_calibration"] = cal
+    if cal["recip"] == cal["n"]:
+        recip = True
+    elif cal["div"] == cal["n"]:
+        recip = False
+    else:
+        ctx.const_fail("jnp.mean rounding (platform)", f"neither sum*fl(1/n) nor sum/n reproduces jnp.mean on the probe set: {cal}")
+        recip = cal["recip"] >= cal["div"]
+    ntree = 420 if ctx.tier == "quick" else 2600
+    cases = []
+    for i in range(ntree):
+        mal = None
+        if i % 14 == 13:
+            mal = ["top_leaf", "toplevel_axes", "nondigit_axis", "axis_gap", "missing_target"][(i // 14) % 5]
+        cases.append(gen_tree_case(rng, f"t{ctx.seed}-{i}", mal))
+    return execute_tree(ctx, cases, stats, recip)
+
+
 def _rat_of(x):
     import math
     if not math.isfinite(x):
@@ -591,14 +1047,20 @@ def run(ctx):
                        "alphabet, tail_rho, alternating float32/float64); seeded random layer sets (1..8 layers, nested paths, 1..3 axes, "
                        "dims from a pool, 5 scoring rules, running average, base rank 0..40, score profiles generic/smallint/tied/"
                        "zero_mix/all_zero/disparate/extreme/mixed). Non-trivial: base rank >= 2 and some group with >= 2 axes and a "
-                       "non-zero score; distinct by (dtype, rule, rank, grouping, score bit patterns)")
+                       "non-zero score; distinct by (dtype, rule, rank, grouping, score bit patterns). Tree stream: seeded nested state trees "
+                       "(see module docstring), 1 in 14 malformed")
     ctx.assumptions += [
         "comparison policy EXACT: ranks per axis, assertion kind and arguments (Float model for x64/float64, Float32 model for the default float32 configuration)",
         "group/tie order is an input of the model: read from the real layers_and_axes/create_groups in the same process (Python set order; PYTHONHASHSEED fixed in workers for reproducibility, names randomised)",
         "scores fed to the model are the bit patterns returned by the real score_fn; they are separately checked against the statistic the state was built for",
         "ggt_intrinsic_rank on an all-zero ema_ggt gives NaN (0/0): not a non-negative score, excluded from generation",
+        "tree stream: iteration order of the Python set of layer names is an input of the model (checked there to be a permutation of the model's own name set); "
+        "jnp.linalg.norm(x, 2) is an external kernel (observed value fed to the model, theorems assume only >= 0); "
+        "the rounding of jnp.mean (sum * fl(1/n) on XLA CPU) is measured by the mean_calibration stage and passed to the model; "
+        "keys are non-empty and contain no '/' (the model works on path components)",
     ]
     pairs = execute(ctx, cases, stats)
+    tree_stage(ctx, random.Random(ctx.seed * 7919 + 1717), stats)
     ctx.cov["corpus_cases"] = ncorpus
     ctx.cov["stats"] = dict(stats)
     for c, o in pairs[:: max(1, len(pairs) // 6)]:
@@ -614,5 +1076,11 @@ def replay(ctx, data):
               if isinstance(s.get("detail"), dict) and isinstance(s["detail"].get("case"), dict) and "layers" in s["detail"]["case"]]
     ctx.cov["rule"] = "replay of recorded cases"
     stats = Counter()
-    execute(ctx, cases, stats)
+    tree_cases = [c for c in cases if c.get("kind") == "tree"]
+    cases = [c for c in cases if c.get("kind") != "tree"]
+    if cases:
+        execute(ctx, cases, stats)
+    if tree_cases:
+        cal = kit.parallel_map(mean_calibration_task, [0], nproc=1)[0]
+        execute_tree(ctx, tree_cases, stats, cal["recip"] >= cal["div"])
     ctx.cov["stats"] = dict(stats)
